@@ -85,6 +85,7 @@ class InputFile:
     _validate = True
     _validators = None
     _validations: dict | None
+    _given_validations: dict | None = None
     _validation_options: dict | None = None
     association_validator = AssociationValidator()
 
@@ -227,6 +228,10 @@ class InputFile:
             self._ui_json = self.numify(value.copy())
             infered_validations = InputValidation.infer_validations(self._ui_json)
 
+            # A new form: nothing inferred from, or loaded for, an earlier one applies
+            self._validations = deepcopy(self._given_validations)
+            self._data = None
+
             if self.validations is None:
                 self.validations = {}
 
@@ -350,6 +355,7 @@ class InputFile:
             valid_dict = {**valid_dict, **deepcopy(base_validations)}
 
         self._validations = valid_dict
+        self._given_validations = deepcopy(valid_dict)
 
     @property
     def validators(self):
